@@ -268,6 +268,7 @@ def flow_scenarios_more(ctx, first_idx):
             sc["rollover_from"] = keys[(j + 3) % len(keys)] if not ctx.quick() else ["ecdsa_p256", "ed25519", "ecdsa_p384"][j % 3]
         scs.append(sc)
     scs += listed_scenarios(ctx, first_idx + n, pool, keys)
+    scs += hook_position_scenarios(ctx, first_idx + len(scs))
     return scs
 
 
@@ -325,6 +326,35 @@ def listed_scenarios(ctx, first_idx, pool, keys):
     return scs
 
 
+HOOK_SEQS = [("first-of-two", ["F", 0]), ("middle-of-three", [0, "F", 0]), ("first-and-last-of-three", ["F", 0, "F"]),
+             ("first-of-three", ["F", 0, 0]), ("first-two-of-three", ["F", "F", 0]), ("last-of-three", [0, 0, "F"])]
+HOOK_VIAS = ["flat", "group", "cert"]
+
+
+def hook_position_scenarios(ctx, first_idx):
+    """SEVERAL hooks of one challenge type (two or three: the recorder's "rec-…", then "rec2-…", "rec3-…") and the
+    POSITION of the failing one(s) among them: the first of two, the middle one of three, the first and the last, …;
+    the additional hooks come after the recorder's in the same group, through a nested hook group, or are named by
+    the certificate itself.  "only after those hooks succeeded": one failing hook of the type, wherever it stands, and
+    nothing is announced for that challenge.  (drawn after every other scenario: the other families keep their draws)"""
+    rng = ctx.rng
+    scs = []
+    n = 8 if ctx.quick() else 180
+    for j in range(n):
+        pat, codes = HOOK_SEQS[j % len(HOOK_SEQS)] if not ctx.quick() else HOOK_SEQS[j % 4]
+        via = HOOK_VIAS[(j + j // len(HOOK_VIAS)) % len(HOOK_VIAS)] if not ctx.quick() else HOOK_VIAS[(j + j // 4) % 3]
+        ids = [{"dns": "example.org", "challenge": TYPES[j % 3]}]
+        if j % 2:
+            ids.append(rng.choice([{"dns": "www.example.org", "challenge": TYPES[(j + 1) % 3]},
+                                   {"ip": "192.0.2.9", "challenge": "http-01"}, {"dns": "*.example.org", "challenge": "dns-01"}]))
+        bad = [1, 3, -9, -15][j % 4]      # exit status 1 / 3, killed by a signal
+        scs.append({"idx": first_idx + j, "ids": ids, "offered": TYPES, "valid": [], "fail_hook": None,
+                    "authz_order": rng.choice(["normal", "reversed"]), "challenge_order": rng.choice(["normal", "reversed"]),
+                    "key_type": ["ecdsa_p256", "ed25519", "ecdsa_p384"][j % 3], "more": True,
+                    "hook_seq": {"pattern": pat, "codes": [bad if c == "F" else 0 for c in codes], "via": via}})
+    return scs
+
+
 def run_flow(sc, root, helper):
     d = os.path.join(root, "f%d" % sc["idx"])
     opts = {"challenge_types": sc["offered"], "authz_status": {v: "valid" for v in sc["valid"]},
@@ -338,6 +368,9 @@ def run_flow(sc, root, helper):
     acct = {"name": "acc1", "contacts": [{"mailto": "a@example.org"}], "key_type": sc["key_type"]}
     # a failing challenge hook exits non-zero or (every other scenario) is killed by a signal: no exit status at all
     exits = {sc["fail_hook"]: (-9 if sc["idx"] % 2 else 1)} if sc["fail_hook"] else None
+    if sc.get("hook_seq") and sc["hook_seq"]["codes"][0] != 0:
+        # the FIRST of the hooks of every challenge type (the recorder's own) is the failing one / one of the failing ones
+        exits = {"challenge-" + t: sc["hook_seq"]["codes"][0] for t in TYPES}
     ca = mockca.MockCA(helper, opts=opts)
     ca.start()
     try:
@@ -369,12 +402,31 @@ def second_hooks(sc):
     """`pre` of flow.run_scenario: one more hook per challenge type ("rec2-…", after the recorder's in the
     group), written into the configuration file before the daemon starts."""
     mode = sc.get("hook2")
-    if not mode:
+    seq = sc.get("hook_seq")
+    if not mode and not seq:
         return None
 
     def pre(root, cfg):
         import cfggen
         log = os.path.join(root, "hooks.log")
+        if seq:
+            # `hook_seq`: the second (and third) hook of every challenge type with the exit status of its position
+            extra = []
+            for n, code in enumerate(seq["codes"][1:], 2):
+                for t in ("challenge-http-01", "challenge-dns-01", "challenge-tls-alpn-01"):
+                    h = flow.recorder_hook("rec%d-%s" % (n, t), t, log, code)
+                    cfg["hook"].append(h)
+                    extra.append(h["name"])
+            if seq["via"] == "group":        # through a hook group named inside the certificate's group
+                cfg["group"].append({"name": "rec-more", "hooks": extra})
+                cfg["group"][0]["hooks"].append("rec-more")
+            elif seq["via"] == "cert":       # named by the certificate itself, after its group
+                for c in cfg["certificate"]:
+                    c["hooks"] = list(c["hooks"]) + extra
+            else:
+                cfg["group"][0]["hooks"] += extra
+            cfggen.write(os.path.join(root, "acmed.toml"), cfg)
+            return
         code = {"fail": 3, "allowed-failure": 3, "ok": 0, "killed": -15}[mode]
         for t in ("challenge-http-01", "challenge-dns-01", "challenge-tls-alpn-01"):
             h = flow.recorder_hook("rec2-" + t, t, log, code, allow_failure=(mode == "allowed-failure"))
@@ -398,7 +450,7 @@ def judge_flow(ctx, r):
             v = ("*." + expected_dns(v[2:])) if v.startswith("*.") else expected_dns(v)
         cfg[v] = x["challenge"]
     hooks = [h for h in obs["hooks"] if h["name"].startswith("rec-challenge-") and not h["name"].endswith("-clean")]
-    hooks2 = [h for h in obs["hooks"] if h["name"].startswith("rec2-challenge-")]
+    hooks2 = [h for h in obs["hooks"] if h["name"].startswith(("rec2-challenge-", "rec3-challenge-"))]
     reqs = [e for e in obs["ca"] if e["kind"] == "req"]
     ready = [e for e in reqs if e["rk"] == "challenge"]
     fetched = {}
@@ -459,8 +511,8 @@ def judge_flow(ctx, r):
             ok_h = [h for h, args, c2, w in mine if c2 == cid and h["exit"] == 0 and h["t_end"] <= e["t"]]
             after = after and bool(ok_h)
         failed = any(h["exit"] != 0 for h, _, _, _ in mine)
-        if sc.get("hook2"):
-            # the second hook of the type: it belongs to the challenge whose proof it was handed; "those hooks
+        if sc.get("hook2") or sc.get("hook_seq"):
+            # the second (third) hook of the type: it belongs to the challenge whose proof it was handed; "those hooks
             # succeeded" covers it (a failure that is allowed counts as success), and it too ends before the POST
             for cid in a["challs"]:
                 w = wants.get((aid, cid), {})
@@ -469,7 +521,7 @@ def judge_flow(ctx, r):
                 posts_c = [e for e in my_ready if e["path"].split("/")[-1] == cid]
                 if prim_ok and not sec:
                     after = False      # the second hook of the type was not run at all
-                if any(h["exit"] != 0 for h in sec) and sc["hook2"] != "allowed-failure":
+                if any(h["exit"] != 0 for h in sec) and sc.get("hook2") != "allowed-failure":
                     failed = True
                 for e in posts_c:
                     after = after and bool(sec) and all(h["t_end"] <= e["t"] for h in sec)
@@ -494,7 +546,8 @@ def judge_flow(ctx, r):
             v = v2
             ctx.count("flow:other-status-read-as-pending")
     ctx.case({k: sc.get(k) for k in ("ids", "offered", "valid", "fail_hook", "authz_order", "challenge_order", "status", "shape",
-                                     "offered_for", "hook2", "rollover_from", "wildcard_false", "key_type", "listed", "chall_status")})
+                                     "offered_for", "hook2", "rollover_from", "wildcard_false", "key_type", "listed", "chall_status",
+                                     "hook_seq")})
     ctx.count("flow:authzs", len(jin))
     ctx.count("flow:served-valid", sum(1 for j in jin if j["served_valid"]))
     ctx.count("flow:hook-failed", sum(1 for j in jin if j["hook_failed"]))
@@ -512,6 +565,16 @@ def judge_flow(ctx, r):
         for k in ("shape", "hook2", "rollover_from", "wildcard_false", "slow_hooks_ms"):
             if sc.get(k):
                 ctx.count("flow+:%s=%s" % (k, sc[k] if k in ("shape", "hook2") else "yes"))
+        if sc.get("hook_seq"):
+            q = sc["hook_seq"]
+            ctx.count("flow+:hook_seq=%s/%s" % (q["pattern"], q["via"]))
+            # measured on the records: a hook that is NOT the last of its type failed (what was run after it is the
+            # implementation's business; what is judged is that nothing was announced)
+            names = ["rec", "rec2", "rec3"][:len(q["codes"])]
+            ran_bad = [h for h in hooks + hooks2 if h["exit"] != 0 and h["name"].split("-challenge-")[0] in names[:-1]]
+            ctx.count("flow+:hook_seq:a-hook-before-the-last-failed=%s" % bool(ran_bad))
+            ctx.count("flow+:hook_seq:hook-failed-authzs", sum(1 for j in jin if j["hook_failed"]))
+            ctx.count("flow+:hook_seq:ready-posts", sum(j["ready_posts"] for j in jin))
         ctx.count("flow+:account-key:" + sc["key_type"])
         if sc.get("rollover_from"):
             ctx.count("flow+:key-change-requests", sum(1 for e in reqs if e["rk"] == "keyChange"))
